@@ -50,9 +50,19 @@ def gen_cases(seed, tier):
     for v in corner + [5, 7]:
         cs.append(('isone', 1, v, 0, 0, 0, 0)); cs.append(('isone', 1, 0, v, 0, 0, 0)); cs.append(('isone', v, 0, 0, 0, 0, 0))
         cs.append(('isone', 1, v, v, 0, 0, 0))
+    # an operation iterated on its own (aliased) result: inv(x,x); inv(x,x) must give x back, etc.
+    for i in range(12 if tier == 'quick' else 200):
+        a = triples[(i * 7 + 3) % n]; b = triples[(i * 11 + 5) % n]
+        if all(x % P == 0 for x in a):
+            a = (1, 2, 3)
+        f = ['inv', 'inv', 'neg', 'square', 'mul', 'rmul', 'add', 'sub', 'rsub'][i % 9]
+        cs.append(('chain', f, str(4 if f != 'inv' else 3)) + a + b)
     lens = [1, 2, 3, 4, 5, 8, 16, 33, 64, 1025, 2050] if tier == 'quick' else [1, 2, 3, 4, 5, 8, 16, 33, 64, 127, 500, 1024, 1025, 2049, 4097, 5000]
     for ln in lens:
-        cs.append(('batchinv', ln, rng.next()))
+        cs.append(('batchinv', ln, rng.next(), '0'))
+    # the same in other OpenMP delivery environments (call from inside a parallel region, foreign thread-count setting)
+    for ln, env in ([(7, 1), (300, 2), (4099, 1)] if tier == 'quick' else [(7, 1), (300, 2), (1025, 3), (4096, 1), (4099, 1), (8200, 1), (8200, 3), (16390, 1)]):
+        cs.append(('batchinv', ln, rng.next(), str(env)))
     return cs
 
 
